@@ -208,7 +208,8 @@ def check(rep: Report, ctx: Ctx) -> None:
                   "current_parser = None")
     mk = [c for c in ast.walk(nx.node) if isinstance(c, ast.Call)
           and call_name(c) == "parse_json_stream"]
-    ok = len(mk) == 1 and unparse(mk[0].args[0]) == \
+    ok = len(mk) == 1 and unparse(ctx.reach(nx).resolve(
+        mk[0].args[0], at=mk[0])) == \
         "self.file_list[self.current_file_index]"
     rep.ob("R13.4", "the parser is created for the current file", ok, fi=nx,
            node=mk[0] if mk else nx.node,
